@@ -48,7 +48,8 @@ struct C21 : drv::Harness
 			else if (w < 72) p.ops.push_back(Op("drop", { rng.below(2) }));          // arg: drop right after the previous op (bytes still in flight) or after delivery
 			else if (w < 79) p.ops.push_back(Op("restartA"));
 			else if (w < 86) p.ops.push_back(Op("restartB"));
-			else if (w < 89) p.ops.push_back(Op("refuse", { rng.range(1, 4) }));
+			else if (w < 88) p.ops.push_back(Op("refuse", { rng.range(1, 4) }));
+			else if (w < 89) p.ops.push_back(Op("eager", { rng.range(1, 3) }));            // at the next reconnect: 1 initiator, 2 acceptor, 3 both send as soon as their own side is established
 			else if (w < 94) p.ops.push_back(Op("flaky_reconnect", { rng.range(0, 6), rng.below(2), rng.below(2) }));   // drop, reconnect, send at once (arg1: initiator, arg2: acceptor), drop again after arg0 x latency/2, reconnect       // the next reconnect finds the acceptor unreachable for this many connect attempts
 			else p.ops.push_back(Op("silence", { rng.range(1, 2000) }));
 		}
@@ -64,7 +65,7 @@ struct C21 : drv::Harness
 		Side A{"A", "CLI", "SRV", "/simfs/A", true}, B{"B", "SRV", "CLI", "/simfs/B", false};
 		Link link; NetCfg net; net.short_read = p.knob("short_read_pm") / 1000.0; net.short_write = p.knob("short_write_pm") / 1000.0; net.eagain = p.knob("eagain_pm") / 1000.0; net.dribble = p.knob("dribble_pm") / 1000.0; net.lat_ns = lat; net.jitter_ns = lat;
 		uint64_t net_seed = (uint64_t)p.knob("net_seed", 1); int conn_no = 0; int reconnects = 0, drops = 0, restarts = 0; bool expect_down = false;
-		int refuse_next = 0;
+		int refuse_next = 0, eager_next = 0;
 		bool replay_lost = false;   // a fault hit while the answer to a ResendRequest was still in flight
 		size_t smark[2] = { 0, 0 };
 		auto resend_in_progress = [&]() { bool rr = false; int k = 0; for (Side *x : { &A, &B }) { if (x->ses) for (size_t q = smark[k]; q < x->ses->states.size(); ++q) { int st = x->ses->states[q].second; if (st == States::st_resend_request_sent || st == States::st_resend_request_received) rr = true; } ++k; } return rr && link.pending > 0; };
@@ -95,6 +96,19 @@ struct C21 : drv::Harness
 				delete A.conn; A.conn = new ClientConnection(A.sock, addr, *A.ses, (unsigned)hb, pm_thread);
 			}
 			if (connect_nowait) return true;
+			if (eager_next)
+			{
+				// application sends racing with the recovery: as soon as a side is established it sends, whatever the other does
+				int who = eager_next; eager_next = 0;
+				for (int k = 0; k < 2; ++k)
+				{
+					Side& sd = k == 0 ? A : B; if (!(who & (1 << k))) continue;
+					sim::settle_until([&]() { return !sd.up() || (States::is_established(sd.ses->st()) && sd.ses->st() != States::st_logon_received); }, 200000000ll, 100000);
+					if (!sd.up() || !States::is_established(sd.ses->st())) continue;
+					std::string id = sd.name + std::to_string(++sd.counter);
+					if (sd.ses->send(order(id))) { sd.sent.push_back(id); sim::count("send_racing_with_recovery"); }
+				}
+			}
 			// bounded wait for both sides to be (re-)established: logon + any resend exchange
 			bool ok = sim::settle_until([&]() { return both_continuous() || !A.up() || !B.up(); }, 3000000000ll, 1000000);   // (connect retries have already slept inside start())
 			return ok && both_continuous();
@@ -131,6 +145,7 @@ struct C21 : drv::Harness
 			}
 			else if (op.k == "silence") sim::advance(op.arg(0) * 1000000ll);
 			else if (op.k == "refuse") refuse_next = (int)op.arg(0);
+			else if (op.k == "eager") eager_next = (int)op.arg(0);
 			else if (op.k == "drop")
 			{
 				if (op.arg(0)) { sim::advance(4 * lat + 1000000); sim::settle(); }
